@@ -39,16 +39,24 @@ def model_pass(ctx, prop):
     if not quick:
         r3 = vf.tlc_must_pass(ctx, "MC_Conn", "MC_Conn_safety3.cfg", timeout=2400, heap="14g")
         res.append(("MC_Conn_safety3", r3))
+    if prop == "C06":
+        # the heartbeat as one more requester / closer, and TimeoutLimit (a caller that times out past the
+        # limit closes the connection itself)
+        for cfg in (("MC_Conn_hbq.cfg", "MC_Conn_tlimitq.cfg") if quick else ("MC_Conn_hb.cfg", "MC_Conn_tlimit.cfg", "MC_Conn_hb3.cfg")):
+            r4 = vf.tlc_must_pass(ctx, "MC_Conn", cfg, timeout=2400, heap="10g")
+            res.append((cfg[:-4], r4))
     return res
 
 
 def selfcheck_model_mutants(ctx):
     """The properties are not vacuous: each deliberately wrong variant of the model is rejected."""
-    expect = {"release_on_giveup": None, "giveup_keeps_timeout_open": None, "closer_never_skips": None}
+    expect = {"release_on_giveup": "MC_Conn_live2.cfg", "giveup_keeps_timeout_open": "MC_Conn_live2.cfg",
+              "closer_never_skips": "MC_Conn_live2.cfg", "timeout_limit_ignored": "MC_Conn_tlimitq.cfg",
+              "hb_ignores_close": "MC_Conn_hbq.cfg"}
     d = os.path.join(vf.SPEC)
-    base = open(os.path.join(d, "MC_Conn_live2.cfg")).read()
     out = {}
     for m in expect:
+        base = open(os.path.join(d, expect[m])).read()
         cfgname = "MC_Conn_mut_%s.cfg" % m
         # written into the scratch copy only
         sd = vf._scratch_spec_dir(ctx, "w")
@@ -194,7 +202,7 @@ def run_conn(ctx, prop):
 CONF_DROP = {"obs_started", "obs_finished", "obs_abandoned", "avail", "wire", "frame_exp", "env_cancel", "env_failwrite",
              "written", "closed_ret", "env_extclose_ret", "env_conn", "n_readerr", "env_unsettled", "env_stuck",
              "w_sem", "w_release", "q_enq", "f_flush", "f_ret"}
-CONF_FIELDS = dict(ev="", seq=0, req="", stream=0, a=0, err="none", wn=0, werr="none")
+CONF_FIELDS = dict(ev="", seq=0, req="", stream=0, a=0, err="none", wn=0, werr="none", tl=0)
 
 
 def project_for_conformance(events):
@@ -208,8 +216,13 @@ def project_for_conformance(events):
     if sum(1 for e in events if e["ev"] == "call") > 60:
         return None, "too many requests for the conformance pass (stream exhaustion scenario)"
     cid, start = conn[0]["conn"], conn[0]["seq"]
+    tl = int(conn[0].get("tl", 0) or 0)
     out = []
     evs = [e for e in events if e["seq"] > start]
+    # the heartbeat's requests: the k-th tick runs request "h<k>"; exec's own lines carry the (negative)
+    # identity of the call object, the harness' call/ret lines the number 100000+k, the node's lines
+    # the stream id the request was written with
+    hbk, hbcur, hbcall, hbstream, hbtok = 0, "", {}, {}, {}
     for i, e in enumerate(evs):
         ev = e["ev"]
         if ev == "avail":
@@ -218,18 +231,42 @@ def project_for_conformance(events):
             continue
         if "conn" in e and e["conn"] != cid and not ev.startswith("n_"):
             continue
-        r = dict(CONF_FIELDS, ev=ev, seq=e["seq"])
+        r = dict(CONF_FIELDS, ev=ev, seq=e["seq"], tl=tl)
         if ev.startswith("n_"):
             if ev in ("n_recv", "n_send"):
                 r["stream"] = e["stream"]
-                r["req"] = "q" + e["tok"].split("_")[1]
+                parts = e["tok"].split("_")
+                if parts[0] == "hb":
+                    if ev == "n_recv":
+                        if e["stream"] not in hbstream:
+                            return None, "heartbeat frame at the node on a stream no heartbeat request holds"
+                        hbtok[parts[1]] = hbstream[e["stream"]]
+                    if parts[1] not in hbtok:
+                        return None, "heartbeat answer without request"
+                    r["req"] = hbtok[parts[1]]
+                else:
+                    r["req"] = "q" + parts[1]
             elif ev == "n_unsol":
                 r["stream"] = e["stream"]
         else:
             rq = e.get("req", 0)
+            if ev == "hb_tick":
+                hbk += 1
+                hbcur = "h%d" % hbk
             if rq < 0:
-                return None, "internal request (heartbeat) in the trace"
-            r["req"] = ("q%d" % rq) if rq > 0 else ""
+                if rq not in hbcall:
+                    if not hbcur or hbcur in hbcall.values():
+                        return None, "internal request that is not the heartbeat's"
+                    hbcall[rq] = hbcur
+                r["req"] = hbcall[rq]
+                if ev == "x_stream":
+                    hbstream[e.get("stream", 0)] = r["req"]
+            elif rq >= 100000:
+                r["req"] = "h%d" % (rq - 100000)
+            elif ev.startswith("hb_"):
+                r["req"] = hbcur
+            else:
+                r["req"] = ("q%d" % rq) if rq > 0 else ""
             r["stream"] = e.get("stream", 0)
             r["a"] = e.get("a", 0)
             r["err"] = e.get("err", "none")
@@ -241,6 +278,9 @@ def project_for_conformance(events):
                     return None, "x_wbegin without x_wend"
                 r["wn"], r["werr"] = nxt[0]["a"], nxt[0]["err"]
         out.append(r)
+        if ev == "hb_unknown":
+            # the code calls closeWithError right after this point (one model step more: HBGiveUp)
+            out.append(dict(r, ev="hb_giveup"))
     return out, None
 
 
